@@ -145,8 +145,14 @@ TEXT = {
         "level": "FunctionReferenceWithArguments._compute_effective_kwargs (the real source, two loops and a filter, loop invariants) is proved equal to the binding specification for every parameter list of distinct "
                  "names, every partial application (positional and keyword) and every call (positional and keyword): a name is bound iff it is a call keyword, a partial keyword, one of the leading partially "
                  "bound parameters, or the r-th parameter left free by the partial application for r < number of positional arguments; its value is the call keyword's, else the positional argument's, else "
-                 "the partial positional's, else the partial keyword's -- so the result is a function of the bound values as a MAP, not of how they were passed.",
-        "note": "work in progress: further functions of C04 are added below as they come under contract",
+                 "the partial positional's, else the partial keyword's -- so the result is a function of the bound values as a MAP, not of how they were passed."
+                 " FunctionReferenceWithArguments.__init__ is proved to normalise args / kwargs / context args first, to bind and hash only the normalised values, to hash exactly the effective kwargs plus the "
+                 "context arguments under their reserved key (present iff there are any) and to keep the context out of the effective kwargs the body receives (with C02's obligation that the body is called with "
+                 "effective_kwargs). ArgumentHasher.compute_hash is proved to be hex(sha256(utf8(normalised-json(encode(kwargs))))). ArgumentHasher._encode is proved against its one-level specification: primitives "
+                 "unchanged, datetime / date / function references as tagged objects with exactly their fields (datetime before date), lists element-wise in order, dicts key-wise -- recursive calls through the "
+                 "function's own contract.",
+        "note": "Partial: _normalized_json (sorted keys => independence of dict insertion order; injectivity of the text across types), _decode / normalize idempotence, validate_args and MementoFunctionBase.partial "
+                "are not under contract (assumed summaries nj, normalized). Termination of the recursive encoder is not proved.",
         "technique": "contract-based deductive verification: own VC generator over the real source + z3/cvc5",
     },
 }
